@@ -291,6 +291,7 @@ def check_c04(out, tier):
     k = SIZES[tier]
     run_and_judge(out, general_cases(rnd, 220 * k, "c04g", ors=True), [], mine, crash_is_mine=True)
     run_and_judge(out, adversarial_cases(rnd, 120 * k, "c04a"), [], mine, crash_is_mine=True)
+    run_and_judge(out, featureless_cases(rnd, 60 * k, "c04f"), [], mine, crash_is_mine=True)
     opts = general_cases(rnd, 140 * k, "c04o", ors=True)
     for c in opts:
         c["cfg"].update(minIri=rnd.random() < .5, examples=rnd.choice(["", "shape", "cons", "all"]),
@@ -338,6 +339,34 @@ def adversarial_cases(rnd, n, prefix):
             cfg["mode"] = "classes"
             cfg["targets"] = classes[:1] + [M.EX + "Absent"]
         cfg["format"] = rnd.choice(["shexc", "shacl"])
+        cases.append(gen.case("%s%d" % (prefix, i), T, **cfg))
+    return cases
+
+
+def featureless_cases(rnd, n, prefix):
+    """classes that have instances but no feature: every triple of their instances lies in an ignored namespace (the typing
+    triple included), next to ordinary classes; crossed with the options that keep per-shape side tables (min IRI, examples)"""
+    cases = []
+    for i in range(n):
+        T = list(gen.general_graph(rnd, max_nodes=5, bnodes=rnd.random() < .4))
+        ghost = M.EX + "Ghost"
+        for j in range(rnd.randint(1, 3)):
+            g = M.iri(M.EX + "g%d" % j) if rnd.random() < .7 else M.bnode("g%d" % j)
+            T.append((g, M.RDF_TYPE, M.iri(ghost)))
+            if rnd.random() < .4:
+                T.append((g, M.RDF + "value", M.lit("v%d" % j)))
+            if rnd.random() < .4 and T:
+                T.append((rnd.choice(T)[0], M.EX + "p0", g))       # referenced from elsewhere
+        rnd.shuffle(T)
+        cfg = gen.switches(rnd, ors=rnd.random() < .3)
+        cfg.update(ignoreNs=[M.RDF], removeEmpty=rnd.random() < .8, minIri=rnd.random() < .6,
+                   examples=rnd.choice(["", "", "shape", "cons", "all"]), format=rnd.choice(["shexc", "shexc", "shacl"]),
+                   thr=rnd.choice([[0, 1], [1, 2], [1, 1]]))
+        if cfg["format"] == "shacl":
+            cfg["examples"] = ""
+        if rnd.random() < .3:
+            cfg["mode"] = "classes"
+            cfg["targets"] = [ghost] + gen.classes_of(T)[:1]
         cases.append(gen.case("%s%d" % (prefix, i), T, **cfg))
     return cases
 
